@@ -440,7 +440,9 @@ def span_matches(raw, us):
 
 # --------------------------------------------------------------------------- run
 def run(ctx):
-    C.config_matrix(ctx["report"], ctx["rundir"], "C17", ["#2024-02-29# + 1", "ceil(#2024-02-29T10:00#) - floor(#2024-02-29T10:00#)", "#2024-02-29T10:00:00.5# - #2024-02-29T10:00:00#", "#2024-02-29T10:00:00.5# > #2024-02-29T10:00:00.25#", "(#2024-01-01# + (-3/2) s) - #2024-01-01#", "floor(#2024-01-01T23:00:00+00:00#); floor(#2024-01-02T01:00:00+02:00#)", "year(#2024-10#)", "#2024-01-01# + 5 Hz"])
+    C.config_matrix(ctx["report"], ctx["rundir"], "C17", ["start = #2024-01-01#; #2024-12-25# - start", "d = 1 d; #2024-03-30T12:00:00# + d - #2024-03-30T12:00:00#",
+                    "#2024-04-01# - #2024-03-30#", "ceil(#2024-03-31T12:00#) - floor(#2024-03-31T12:00#)", "#2024-11-04# - #2024-11-02#", "(#2024-10-27T12:00# + 1) - #2024-10-27T12:00#",
+                    "#2024-03-10T01:30# + 3600 s", "x = #2024#; #2025# > x; #2025# - x", "#2024-02-29# + 1", "ceil(#2024-02-29T10:00#) - floor(#2024-02-29T10:00#)", "#2024-02-29T10:00:00.5# - #2024-02-29T10:00:00#", "#2024-02-29T10:00:00.5# > #2024-02-29T10:00:00.25#", "(#2024-01-01# + (-3/2) s) - #2024-01-01#", "floor(#2024-01-01T23:00:00+00:00#); floor(#2024-01-02T01:00:00+02:00#)", "year(#2024-10#)", "#2024-01-01# + 5 Hz"])
     # --- coordinator: an instant held in a variable is unchanged by floor, ceil and arithmetic on it
     _items = []
     for _d in ("#2024-02-29#", "#2023-12-31#", "#2024-01-31T00:00:00#", "#2024-03-10T12:00#"):
